@@ -291,7 +291,16 @@ pub fn parse_rfc3339(s: &str) -> Option<i64> {
         return None;
     }
     let t = parse_to(&wall)?;
-    let z = &s[19..];
+    // optional fraction of a second: an instant W + f (0 <= f < 1) is at or after a whole-second
+    // `to` exactly when W is, so the fraction is dropped (floor)
+    let mut z = &s[19..];
+    if let Some(rest) = z.strip_prefix('.') {
+        let digits = rest.bytes().take_while(|b| b.is_ascii_digit()).count();
+        if digits == 0 {
+            return None;
+        }
+        z = &rest[digits..];
+    }
     let off = if z == "Z" { 0 } else { parse_offset(z)? };
     Some(t - off)
 }
